@@ -1,7 +1,7 @@
 ---------------------------- MODULE Cli ----------------------------
 (* The command line tool as a protocol machine (crates/svgbob_cli/src/main.rs):               *)
 (*   ParseArgs -> ReadInput -> MapSettings -> Convert -> WriteOutput -> Exit                   *)
-(* with the fault actions missing file, unparsable number, unwritable output.  TLC enumerates   *)
+(* with the fault actions missing file, input that is not text, unparsable number, unwritable output.  TLC enumerates   *)
 (* every option subset x input mode x fault combination; the machine's outcome must equal the   *)
 (* reference functions of CliRef, and every behaviour is printed as a scenario to be replayed   *)
 (* against the real binary.                                                                    *)
@@ -9,11 +9,12 @@ EXTENDS CliRef, TLC, Json
 VARIABLES sc, pc, exit, channel, wrote
 vars == <<sc, pc, exit, channel, wrote>>
 Scenarios == { s \in [opts : SUBSET AllOpts, inmode : {"file", "stdin", "inline"},
-                      fault : SUBSET {"missing_file", "bad_number", "unwritable"}] : WellFormedScenario(s) }
+                      fault : SUBSET {"missing_file", "bad_utf8", "bad_number", "unwritable"}] : WellFormedScenario(s) }
 Init == sc \in Scenarios /\ pc = "parse" /\ exit = -1 /\ channel = "none" /\ wrote = "nothing"
 ParseArgs == pc = "parse" /\ pc' = "read" /\ UNCHANGED <<sc, exit, channel, wrote>>
 ReadInput == /\ pc = "read"
              /\ IF "missing_file" \in sc.fault THEN pc' = "exit" /\ exit' = 1
+                ELSE IF "bad_utf8" \in sc.fault THEN pc' = "exit" /\ exit' = 101      \* read_to_string(..).unwrap()
                 ELSE pc' = "settings" /\ exit' = exit
              /\ UNCHANGED <<sc, channel, wrote>>
 MapSettings == /\ pc = "settings"
